@@ -6,7 +6,7 @@
      ...
    built on IO/LpTok.v (tokens), IO/LpExpr.v (expressions), IO/LpRows.v (constraints). *)
 From Coq Require Import QArith List Ascii String Bool Arith NArith Lia Lqa.
-From QSX Require Import Base.QSum LP.User IO.Num IO.NumSound IO.Bounds IO.Lex IO.Equiv IO.LpWrite IO.LpRead IO.LpTok IO.LpExpr IO.LpRows.
+From QSX Require Import Base.QSum LP.User IO.Num IO.NumSound IO.Bounds IO.Lex IO.Equiv IO.LpWrite IO.LpRead IO.LpTok IO.LpExpr IO.LpRows IO.LpBounds.
 Import ListNotations.
 Local Open Scope Q_scope.
 
@@ -271,3 +271,100 @@ Section Rows2.
     - apply (VR eq_refl).
   Qed.
 End Rows2.
+
+(* ---- the Integer section ---------------------------------------------------------------------------------------------------- *)
+
+(* a line of names, each preceded by one blank *)
+Definition name_line (ns : list name) : line := flat_map (fun n => " "%char :: n) ns.
+
+Inductive names_lines : list name -> list line -> Prop :=
+| nl_nil : names_lines [] []
+| nl_line ns1 ns2 ls : ns1 <> [] -> names_lines ns2 ls -> names_lines (ns1 ++ ns2) (name_line ns1 :: ls).
+
+Lemma name_line_snoc ns nm : name_line (ns ++ [nm]) = name_line ns ++ " "%char :: nm.
+Proof. unfold name_line. rewrite flat_map_app. cbn [flat_map]. now rewrite app_nil_r. Qed.
+
+(* write_intvars produces such lines *)
+Lemma int_lines_shape : forall names ns0,
+  names_lines (ns0 ++ names) (int_lines names (match ns0 with [] => [" "%char] | _ => name_line ns0 end) (negb (is_nil ns0))).
+Proof.
+  induction names as [|nm r IH]; intros ns0.
+  - cbn [int_lines]. rewrite app_nil_r. destruct ns0 as [|n0 ns0']; cbn [is_nil negb]; [constructor|].
+    rewrite <- (app_nil_r (n0 :: ns0')) at 1. constructor; [discriminate|constructor].
+  - replace (ns0 ++ nm :: r) with ((ns0 ++ [nm]) ++ r) by (rewrite <- app_assoc; reflexivity).
+    assert (G : forall (cur0 : line) (var : bool), cur0 ++ (if var then [" "%char] else []) ++ nm = name_line (ns0 ++ [nm]) ->
+                names_lines ((ns0 ++ [nm]) ++ r) (int_lines (nm :: r) cur0 var)).
+    { intros cur0 var CUR. cbn [int_lines]. rewrite CUR.
+      destruct (LINE_LEN <=? List.length (name_line (ns0 ++ [nm])))%nat.
+      - constructor; [now destruct ns0|]. apply (IH []).
+      - specialize (IH (ns0 ++ [nm])). destruct (ns0 ++ [nm]) eqn:Z; [now destruct ns0|]. exact IH. }
+    apply G. rewrite name_line_snoc. destruct ns0; cbn [is_nil negb app name_line flat_map]; [reflexivity|]. now rewrite <- !app_assoc.
+Qed.
+
+Lemma read_integer_loop_sbeq k st st' rw : sbeq st st' -> read_integer_loop (S k) st rw = read_integer_loop (S k) st' rw.
+Proof. intros H. cbn [read_integer_loop]. unfold read_colname. rewrite (next_var_sbeq _ _ H). reflexivity. Qed.
+
+Definition mark_all (rw : raw) (ns : list name) : raw := fold_left mark_int ns rw.
+Lemma r_cols_mark_all ns : forall rw, r_cols (mark_all rw ns) = r_cols rw.
+Proof. induction ns as [|n ns IH]; intros rw; [reflexivity|]. cbn [mark_all fold_left]. change (r_cols (mark_all (mark_int rw n) ns) = r_cols rw). now rewrite IH. Qed.
+
+Definition intname_ok (cn : list name) (n : name) : Prop := name_ok n /\ mem n cn = true.
+
+(* the names of one line *)
+Lemma int_line_read : forall ns st rw k, Forall (intname_ok (r_cols rw)) ns -> cur st = name_line ns ->
+  exists st', read_integer_loop (List.length ns + k) st rw = read_integer_loop k st' (mark_all rw ns) /\
+    cur st' = [] /\ rest st' = rest st /\ eof st' = eof st.
+Proof.
+  induction ns as [|n ns IH]; intros st rw k OK C.
+  - exists st. cbn in *. auto.
+  - inversion OK as [|? ? (NO & MEM) OK']; subst. cbn [name_line flat_map] in C. fold (name_line ns) in C.
+    assert (C' : cur st = [" "%char] ++ n ++ name_line ns) by exact C.
+    assert (ST : stop_name (name_line ns)) by (destruct ns; reflexivity).
+    assert (AB1 : all_blank [" "%char]) by reflexivity.
+    assert (NE1 : [" "%char] <> [] \/ pre st <> []) by (left; discriminate).
+    destruct (next_var_name st [" "%char] n (name_line ns) C' AB1 NO ST NE1) as (st1 & NV & (P1 & C1 & R1 & E1 & L1) & F1).
+    cbn [List.length plus read_integer_loop]. unfold read_colname. rewrite NV, F1, MEM.
+    destruct (IH st1 (mark_int rw n) k OK' C1) as (st' & RL & C2 & R2 & E2).
+    exists st'. rewrite RL. cbn [mark_all fold_left]. repeat split; congruence.
+Qed.
+
+Lemma ints_end k st stb rw more : sbeq st stb -> before stb (s2l "End" :: more) ->
+  exists st', read_integer_loop (S k) st rw = PrOk (st', rw) /\ pre st' = [] /\ cur st' = s2l "End" /\ rest st' = more /\ eof st' = false.
+Proof.
+  intros SB (ABc & RSb & EOb).
+  pose proof (sbeq_newline stb _ _ ABc EOb RSb) as SN.
+  rewrite (read_integer_loop_sbeq k st _ rw (sbeq_trans _ _ _ SB SN)).
+  cbn [read_integer_loop]. unfold read_colname, next_var.
+  change (cutline (s2l "End")) with (s2l "End").
+  cbn [skip_blanks pre cur skipb s2l list_ascii_of_string is_blank Ascii.eqb orb set_pos negb set_first at_col0 is_nil].
+  change (fst (scan_name (s2l "End") true)) with (s2l "End"). cbn [s2l list_ascii_of_string first andb].
+  change (is_keyword (s2l "End")) with true. cbn beta iota.
+  eexists. split; [reflexivity|]. cbn. repeat split.
+Qed.
+
+Lemma ints_read : forall ns ls, names_lines ns ls -> forall st stb rw k more,
+  Forall (intname_ok (r_cols rw)) ns -> sbeq st stb -> before stb (ls ++ s2l "End" :: more) -> (List.length ns <= k)%nat ->
+  exists st', read_integer_loop (S k) st rw = PrOk (st', mark_all rw ns) /\
+    pre st' = [] /\ cur st' = s2l "End" /\ rest st' = more /\ eof st' = false.
+Proof.
+  induction 1 as [|ns1 ns2 ls NE NL IH]; intros st stb rw k more OK SB BF FU.
+  - cbn [app] in BF. apply (ints_end k st stb rw more SB BF).
+  - apply Forall_app in OK. destruct OK as [OK1 OK2].
+    cbn [app] in BF. destruct BF as (ABc & RSb & EOb).
+    pose proof (sbeq_newline stb _ _ ABc EOb RSb) as SN.
+    set (s0 := mk_rst [] (cutline (name_line ns1)) (ls ++ s2l "End" :: more) false (fld stb) (first stb) (S (lnum stb))) in *.
+    rewrite (read_integer_loop_sbeq k st s0 rw (sbeq_trans _ _ _ SB SN)).
+    assert (CLN : clean (name_line ns1)).
+    { clear - OK1. induction ns1 as [|n ns IH]; [reflexivity|]. inversion OK1 as [|? ? (NO & _) OK']; subst.
+      cbn [name_line flat_map]. apply clean_cons; [reflexivity|]. apply clean_app; [now apply name_clean|now apply IH]. }
+    assert (C0 : cur s0 = name_line ns1) by (unfold s0; cbn [cur]; now apply cutline_clean).
+    rewrite app_length in FU.
+    replace (S k) with (List.length ns1 + (S (k - List.length ns1)))%nat by lia.
+    destruct (int_line_read ns1 s0 rw (S (k - List.length ns1)) OK1 C0) as (s1 & RL & C1 & R1 & E1).
+    rewrite RL. unfold mark_all at 2. rewrite fold_left_app. fold (mark_all rw ns1). fold (mark_all (mark_all rw ns1) ns2).
+    apply (IH s1 s1 (mark_all rw ns1) (k - List.length ns1)%nat more).
+    + rewrite r_cols_mark_all. exact OK2.
+    + reflexivity.
+    + unfold before. rewrite C1. repeat split; auto.
+    + lia.
+Qed.
